@@ -40,7 +40,9 @@ def run(ctx):
     from . import r_rank as RR
     RR.search_chain_shape(ctx, "R06.a", parts=("complete", "score", "filter"))
     RC20.buffer_rules(ctx, None, None, "R20.f")
-    return info("Necessary constants for single-typo tolerance at the n=5 worst cases: length gate accepts 1-5/6, "
+    from . import C20 as _RC20
+    _RC20.api_effects(ctx, "R04.l", which=("add",))
+    return info("R04.l: add_record really adds the record to the addressed store on every call (the registry API is not exercised by the repository's tests). Necessary constants for single-typo tolerance at the n=5 worst cases: length gate accepts 1-5/6, "
                 "Jaccard gate accepts 1/2, the DL gate accepts c/5 for every edit-cost constant c, every cost <= 1.0, "
                 "gate shapes (1-min/max, dist/max) are confirmed before the bounds are applied, and the prefix-pair "
                 "tolerance admits a length difference of one.")
